@@ -1,26 +1,30 @@
-"""C13: non-disturbance monitor over algebra sessions (even runs) and evolution / thermal sessions (odd runs)."""
+"""C13: non-disturbance monitor over algebra sessions (0 mod 3), evolution / thermal sessions (1 mod 3) and tree sessions (2 mod 3)."""
 from simlab import session
 from simlab.profiles.chainprof import ChainProfile
 from simlab.profiles.evoprof import EvoProfile, W_C09, W_C10
+from simlab.profiles.treeprof import TreeProfile
 
 ID = "C13"
 _A = ChainProfile("C13")
 _W = dict(W_C10)
 _W.update(evolve=5.0, evolve_imag=4.0, alias_mutate=1.0, drop=0.8, spill=0.6, observe=1.0, truncate=0.5, add=1.0, apply=1.0)
 _B = EvoProfile("C13", _W)
+_C = TreeProfile("C13")
+_FAM = {"algebra": _A, "evo": _B, "tree": _C}
 
 
 def _prof(header):
-    return _B if header.get("family") == "evo" else _A
+    return _FAM[header.get("family", "algebra")]
 
 
 def generate_and_run(seed, index, tier):
-    prof = _B if index % 2 else _A
+    fam = ["algebra", "evo", "tree"][index % 3]
+    prof = _FAM[fam]
     import random
     rnd = random.Random(seed)
     header = prof.gen_header(rnd, tier)
     header["tier"] = tier
-    header["family"] = "evo" if index % 2 else "algebra"
+    header["family"] = fam
     return session._run(prof, header, None, rnd, prof.nsteps(rnd, tier), tier)
 
 
